@@ -200,6 +200,22 @@ public:
 	}
 
 protected:
+	// Like directDispatch, but reaches the callbacks of the given prototype (see
+	// HeterCallbackList::invokeAs) instead of selecting the prototype from the argument types again.
+	template <typename PrototypeInfo, typename ...Args>
+	void directDispatchAs(const Event & e, Args && ...args) const
+	{
+		if(! internal_::ForEachMixins<MixinRoot, Mixins, DoMixinBeforeDispatch>::forEach(
+			this, typename std::add_lvalue_reference<Args>::type(args)...)) {
+			return;
+		}
+
+		const CallbackList_ * callableList = doFindCallableList(e);
+		if(callableList) {
+			callableList->template invokeAs<PrototypeInfo>(std::forward<Args>(args)...);
+		}
+	}
+
 	template <typename ArgumentMode, typename T, typename ...Args>
 	auto doDispatch(T && first, Args && ...args) const
 		-> typename std::enable_if<std::is_same<ArgumentMode, ArgumentPassingIncludeEvent>::value>::type
